@@ -473,7 +473,7 @@ def run(ctx):
     props = []
     for n in range(ctx.share(B['props'])):
         kwn = 0.3 if n % 4 == 0 else 0.0
-        pg = gen.PropGen(rng, maxdepth=rng.randrange(1, 4), kw_names=kwn, max_width=rng.choice((2, 3, 5)))
+        pg = gen.PropGen(rng, maxdepth=rng.randrange(1, 4), kw_names=kwn, max_width=rng.choice((2, 3, 5)), const_preds=0.05)
         p, _, _ = pg.make(n=n)
         props.append(p)
         ok = judge_positive(H, 'property', lambda pol, p=p: A.prop_tokens(p, pol),
